@@ -147,6 +147,10 @@ def cart_to_kep(rv, mu):
 
 
 def _stumpff(z):
+    if z < -2.5e5:
+        # cosh/sinh would overflow; such z only occur at the far end of the bracket of propagate_uv, where the
+        # (monotone) time equation is astronomically above its target: any huge value drives the bisection back
+        z = -2.5e5
     if z > 1e-6:
         s = math.sqrt(z)
         return (1 - math.cos(s)) / z, (s - math.sin(s)) / (s * z)
